@@ -356,14 +356,20 @@ async fn crash_state_check(base: &CrashBase, label: &str, state: &str, work: &Pa
     let band = Band::open(&archive, bid(x)).await;
     if state == "BANDHEAD" {
         // The newest band cannot be opened at all: it is not a version.  No reader may regard it as complete; the
-        // listing falls back to the previous version.  (last_complete_band() may report the unreadable head as an
-        // error: that is the behaviour of the unchanged tree and is not judged here.)
+        // listing falls back to the previous version.
         if std::env::var_os("WITNESS_DEBUG").is_some() {
             eprintln!("{label} BANDHEAD empty: band_is_closed = {a:?}; Band::open = {:?}; last_complete_band = {lcb:?}", band.as_ref().map(|b| b.id()).map_err(|e| e.to_string()));
         }
         if a != Ok(false) || band.is_ok() || matches!(lcb, Ok(Some(id)) if id == bid(x)) {
             return found(K, input, format!("Archive::band_is_closed = {a:?}; Band::open ok = {}; last_complete_band = {lcb:?}", band.is_ok()),
                 "a band whose head was never written is not open-able and not complete", "a band without a readable head is treated as a version");
+        }
+        // C03 "every previously completed version restores exactly as before": the selection of the latest complete
+        // version must not fail because of the interrupted band (all earlier bands of these archives are complete)
+        let want = if x > 0 { Some(bid(x - 1)) } else { None };
+        if lcb != Ok(want) {
+            return found(K, input, format!("last_complete_band = {lcb:?}"), &format!("Ok({want:?})"),
+                "a backup killed while creating its band head makes the selection of the latest complete version fail (default restore unusable)");
         }
         return Ok(None);
     }
